@@ -116,6 +116,14 @@ func runVCCase(wt *watch, c *VCCase, idx int) Event {
 			"tags": {IsOptional: true, Constraint: schema.AnyExpression{OfType: cty.List(cty.String)}},
 			"v":    {IsOptional: true, Constraint: cons}}},
 	}
+	s.Blocks["d"] = &schema.BlockSchema{
+		Labels:  []*schema.LabelSchema{{Name: "name"}},
+		Address: &schema.BlockAddrSchema{Steps: schema.Address{schema.StaticStep{Name: "d"}, schema.LabelStep{Index: 0}}, ScopeId: "dblk", AsReference: true, BodyAsData: true, InferBody: true},
+		Body: &schema.BodySchema{Attributes: map[string]*schema.AttributeSchema{
+			"tags": {IsOptional: true, Constraint: schema.AnyExpression{OfType: cty.List(cty.String)}}},
+			Blocks: map[string]*schema.BlockSchema{"inner": {Body: &schema.BodySchema{Attributes: map[string]*schema.AttributeSchema{
+				"v": {IsOptional: true, Constraint: cons}}}}}},
+	}
 	var sb strings.Builder
 	edited := ""
 	if c.Place.InLoc {
@@ -132,6 +140,9 @@ func runVCCase(wt *watch, c *VCCase, idx int) Event {
 		if c.Place.Level == 2 {
 			sb.WriteString("c \"one\" {\n  tags = [\"t1\", \"t2\"]\n}\nc \"two\" {\n  ")
 		}
+		if c.Place.Level == 3 {
+			sb.WriteString("d \"one\" {\n  tags = [\"t1\", \"t2\"]\n}\nd \"two\" {\n  tags = [\"u1\"]\n  inner {\n    ")
+		}
 		sb.WriteString("v = ")
 	}
 	open := ""
@@ -144,6 +155,9 @@ func runVCCase(wt *watch, c *VCCase, idx int) Event {
 		sb.WriteString("]")
 	}
 	sb.WriteString("\n}\n")
+	if c.Place.Level == 3 {
+		sb.WriteString("}\n")
+	}
 	if !c.Place.InLoc && c.Place.Level == 0 {
 		// nothing to close at the root: drop the brace
 		str := sb.String()
